@@ -59,11 +59,29 @@ def unindented_comment_before_body_line(text: str) -> bool:
     return False
 
 
+def tight_number_comma_number(root: Any) -> bool:
+    """A bare number, a list comma and another number with nothing in between: the lexer reads '516,475' as one number with a thousands separator."""
+    toks = [t for t in O.store_tokens(root.token_store) if t.raw_text != '']
+    for a, b, c in zip(toks, toks[1:], toks[2:]):
+        if type(a).__name__ == 'Number' and type(b).__name__ == 'Comma' and type(c).__name__ == 'Number' and '.' not in a.raw_text and len(c.raw_text.split('.')[0].split(',')[0]) >= 3:
+            return True
+    return False
+
+
+def ignored_before_blanks(root: Any) -> bool:
+    """An ignored line whose token is directly followed by blanks: the IGNORED terminal takes the rest of the line, blanks included."""
+    toks = [t for t in O.store_tokens(root.token_store) if t.raw_text != '']
+    return any(type(a).__name__ == 'Ignored' and isinstance(b, O.Whitespace) for a, b in zip(toks, toks[1:]))
+
+
 def compare(root: Any, what: str, key: str) -> Optional[tuple[str, str]]:
     text = O.print_text(root)
     try:
         again = common.parse_file(text)
     except lark.exceptions.LarkError as e:
+        if tight_number_comma_number(root):
+            return ('number-merges-across-tight-comma', f'after {what} the document prints {text!r}: a bare number now stands directly before a comma that is '
+                    f'directly followed by digits, which the lexer reads as one number with a thousands separator')
         if unindented_comment_before_body_line(text):
             return ('reparse-rejected:unindented-comment-before-body-line',
                     f'after {what} the document prints {text!r}: an unindented comment now sits between body lines, which parse() rejects')
@@ -71,6 +89,12 @@ def compare(root: Any, what: str, key: str) -> Optional[tuple[str, str]]:
     except Exception as e:  # noqa: BLE001
         return (f'reparse-raised:{key}:{type(e).__name__}', f'after {what} the document prints {text!r}; parse() raised {e!r}')
     d1, d2 = O.digest(root), O.digest(again)
+    if d1 != d2 and tight_number_comma_number(root):
+        return ('number-merges-across-tight-comma', f'after {what} the document prints {text!r}: a bare number now stands directly before a comma that is directly '
+                f'followed by digits, which the lexer reads as one number with a thousands separator ({O.digest_diff(d1, d2)})')
+    if d1 != d2 and ignored_before_blanks(root):
+        return ('ignored-line-absorbs-following-blanks', f'after {what} the document prints {text!r}: an ignored line now stands directly before blanks, which the '
+                f'IGNORED terminal (rest of the line) absorbs on re-parsing ({O.digest_diff(d1, d2)})')
     if d1 != d2:
         return (f'digest:{key}', f'after {what} the model and its re-parsed print differ at {O.digest_diff(d1, d2)}; printed {text!r}')
     c1, c2 = O.comment_lines(root), O.comment_lines(again)
@@ -88,6 +112,10 @@ def run_case(case: dict) -> Result:
     nontrivial = False
     pinned = bool(case.get('pinned'))
     for op in case['ops']:
+        if not pinned and (tight_number_comma_number(root) or ignored_before_blanks(root)):
+            classes.add('excluded-lexical-adjacency')   # open findings, pinned in corpus/C06
+            res.excluded_known += 1
+            break
         if not pinned and unindented_comment_before_body_line(O.print_text(root)):
             # open finding (known_findings.json): excluded from generation by construction so that the search continues behind it;
             # its committed trigger in corpus/C06 keeps reporting it
@@ -120,6 +148,10 @@ def run_case(case: dict) -> Result:
             nontrivial = True
         if ambiguous_custom(root):
             classes.add('excluded-custom-sign-ambiguity')
+            break
+        if not pinned and (tight_number_comma_number(root) or ignored_before_blanks(root)):
+            classes.add('excluded-lexical-adjacency')
+            res.excluded_known += 1
             break
         bad = compare(root, str(op), a.key())
         if bad:
